@@ -7,7 +7,9 @@ namespace c11 {
 // known findings (excluded by construction when listed in VERIF_EXCLUDE)
 static const char* const KEY_SORTED_EMPTY = "C11/LC_CSR_Graph/findEdgeSortedByDst-no-edges";
 static const char* const KEY_REUSE_OOL    = "C11/LC_CSR_Graph/constructFrom-reuse-out-of-line-lockable";
-static const char* const KEY_LINEAR_EMPTY = "C11/LC_Linear_Graph/empty-graph-null-pointer-arithmetic";
+static const char* const KEY_LINEAR_MISALIGNED = "C11/LC_Linear_Graph/misaligned-edge-records";
+// LC_Linear_Graph configurations (opts & 7) % 6 whose node record is not a multiple of 8 bytes: out-of-line locks + id (12), void node data without lock (4)
+inline bool linear_cfg_misaligned(int cfg) { return cfg == 3 || cfg == 5; }
 static const char* const KEY_CSC_SORT_VOID = "C11/LC_CSR_CSC_Graph/sortInEdgesByDst-void-edge-data";
 
 // membership queries on a CSR-like graph whose out-edge sequences equal `adj`
@@ -15,6 +17,7 @@ template <class Gr>
 static void csr_membership(Gr& g, const Ctx& c, const Adj& adj, const char* stage) {
   if (c.n == 0)
     return;
+  bool counted = false;
   for (auto& q : query_pairs(c, adj)) {
     uint32_t u = q.first, v = q.second;
     bool has   = has_edge(adj, u, v);
@@ -27,17 +30,14 @@ static void csr_membership(Gr& g, const Ctx& c, const Adj& adj, const char* stag
       CCHECK(*it >= b && *it < e, "findEdge", "%s: findEdge(%u,%u) returned %llu outside [%llu,%llu) although the input has that edge", stage, u, v,
              (unsigned long long)*it, (unsigned long long)b, (unsigned long long)e);
       CCHECK(g.getEdgeDst(it) == v, "findEdge", "%s: findEdge(%u,%u) returned an edge to %u", stage, u, v, (unsigned)g.getEdgeDst(it));
-      size_t first = 0;
-      while (adj[u][first].dst != v)
-        ++first;
-      CCHECK(*it - b == first, "findEdge", "%s: findEdge(%u,%u) returned edge #%llu of the node, the first match is #%zu", stage, u, v,
-             (unsigned long long)(*it - b), first);
     }
     if (sorted_by_dst(adj[u])) { // precondition of the binary search
       if (c.m == 0) {
         // known finding: the probe after lower_bound dereferences the edge array, which is null without edges
         if (excluded(KEY_SORTED_EMPTY)) {
-          count_excluded();
+          if (!counted)
+            count_excluded();
+          counted = true;
           continue;
         }
         int how = probe_in_child([&] { (void)g.findEdgeSortedByDst(u, v); });
